@@ -11,22 +11,22 @@ def ndigits : Nat → Nat → Nat
   | 0, _ => 0
   | fuel+1, n => if n = 0 then 0 else 1 + ndigits fuel (n / 10)
 
+/-- the comparison `n/d ≥ 10^e`, on numerator and denominator -/
+def geP (n d : Nat) (e : Int) : Bool := if e ≥ 0 then decide (d * 10 ^ e.toNat ≤ n) else decide (d ≤ n * 10 ^ (-e).toNat)
+
+/-- `n/d` (positive) rounded to `p` significant digits, ties to even -/
+def rndMag (p n d : Nat) : Rat :=
+  -- first guess of floor(log10 (n/d)), then corrected
+  let e0 : Int := (ndigits (n+1) n : Int) - (ndigits (d+1) d : Int)
+  let e : Int := if geP n d e0 then (if geP n d (e0 + 1) then e0 + 1 else e0) else e0 - 1
+  -- scale so that the integer part has p digits: y = (n/d) * 10^(p-1-e)
+  let k : Int := (p : Int) - 1 - e
+  if k ≥ 0 then ((roundHalfEvenNat (n * 10 ^ k.toNat) d : Nat) : Rat) / ((10 ^ k.toNat : Nat) : Rat)
+  else ((roundHalfEvenNat n (d * 10 ^ (-k).toNat) : Nat) : Rat) * ((10 ^ (-k).toNat : Nat) : Rat)
+
 /-- Python `decimal` value semantics: exact result rounded to `p` significant digits, ties to even -/
 def rnd (p : Nat) (x : Rat) : Rat :=
-  if x = 0 then 0 else
-  let n := x.num.natAbs
-  let d := x.den
-  -- first guess of floor(log10 |x|)
-  let e0 : Int := (ndigits (n+1) n : Int) - (ndigits (d+1) d : Int)
-  -- |x| >= 10^e0 ?   (compare n * 10^(-e0) with d, or n with d * 10^e0)
-  let ge (e : Int) : Bool := if e ≥ 0 then decide (d * 10 ^ e.toNat ≤ n) else decide (d ≤ n * 10 ^ (-e).toNat)
-  let e : Int := if ge e0 then (if ge (e0 + 1) then e0 + 1 else e0) else e0 - 1
-  -- scale so that the integer part has p digits: y = |x| * 10^(p-1-e)
-  let k : Int := (p : Int) - 1 - e
-  let (yn, yd) := if k ≥ 0 then (n * 10 ^ k.toNat, d) else (n, d * 10 ^ (-k).toNat)
-  let r := roundHalfEvenNat yn yd
-  let v : Rat := if k ≥ 0 then (r : Rat) / ((10 ^ k.toNat : Nat) : Rat) else (r : Rat) * ((10 ^ (-k).toNat : Nat) : Rat)
-  if x.num < 0 then -v else v
+  if x = 0 then 0 else if x.num < 0 then -rndMag p x.num.natAbs x.den else rndMag p x.num.natAbs x.den
 
 def quant (dec : Nat) (x : Rat) : Rat :=
   let s : Nat := 10 ^ dec
